@@ -165,3 +165,9 @@ MUTANTS = [
     ("sha1_crypt.to_string: config strings keep the digest", "passlib/handlers/sha1_crypt.py", "        chk = None if config else self.checksum", "        chk = self.checksum", "refute", "sha1_crypt.to_string"),
     ("sha2_crypt.to_string: harmless switch from format() to concatenation", "passlib/handlers/sha2_crypt.py", '            hash = "{}{}${}".format(self.ident, self.salt, self.checksum or "")', '            hash = self.ident + self.salt + "$" + (self.checksum or "")', "hold", "sha256_crypt.to_string"),
 ]
+
+# ---- the variant a derived fshp hasher renders is the one it was configured with: using() stores it on the fresh subclass,
+#      never on the class it was derived from (frame contract shared with C09) ----
+from contracts import c09_frames as _fr07  # noqa: E402
+
+CONTRACTS += [c for c in _fr07.CONTRACTS if c.id.startswith("fshp.using")]
